@@ -35,6 +35,12 @@ CLAIMED = {
         "note": "Trusted: z3, symx, SymRotation quaternion algebra, real dask.delayed (synchronous), real polars with Object columns. Not covered: which candidate scores best on real data; uint8 wrap-around beyond 256 candidates.",
         "ref": "DESIGN.md §4 C06",
     },
+    "C03": {
+        "text": "Loaders over shape-only tomograms and molecules with symbolic position/orientation tags, on the real polars and the real dask.delayed: the k-th loading task is identified (tomogram read + molecule whose position z3 proves equal to the sampled centre) as molecule k on the tomogram registered for its id - for single loaders, batches with every image-id ordering of length 2-4, groups and derived loaders; "
+                "per-molecule kwargs k and apply() row k belong to subtomogram k; derived loaders hold exactly the selected molecules; groups partition; derived groups are re-iterable; sources untouched.",
+        "note": "Trusted: z3, symx, real polars (Object columns), real dask.delayed (synchronous), C02's affine_transform contract. Bounds: 3-4 molecules per loader well inside 200^3 tomograms, 2-3 tomograms, operation sequences <= 2. Not covered: classification write-back (C18 n/a; same task order), polars internals.",
+        "ref": "DESIGN.md §4 C03",
+    },
     "C05": {
         "text": "Every sub-volume is covered by quantifying over arg-max outcomes: the real sub-pixel routines of all four models run with a numpy whose argmax over data is an arbitrary in-range index and with opaque interpolation values. "
                 "z3 decides |shift_i| <= max_shifts_i on every path; a path ending in an exception violates 'never fails'. Refinement stage: max_shifts any real >= 0, symbolic landscape sizes; whole routines: boxes (4,4,4),(5,6,7)[,(8,8,8),(7,4,9)], max_shifts symbolic in [0,2*box) on one axis.",
